@@ -235,7 +235,8 @@ pub fn worker_main() {
         MAX_REQ.store(0, Ordering::Relaxed);
         SITE.lock().unwrap().clear();
         PANIC_SITE.lock().unwrap().clear();
-        SOFT.store(soft_limit(l.len() / 2), Ordering::Relaxed);
+        // the site of the first request above 64 MiB is recorded; the parent decides with the exact input length
+        SOFT.store(soft_limit(0), Ordering::Relaxed);
         let t0 = std::time::Instant::now();
         let a = run_case(l);
         let ms = t0.elapsed().as_millis();
@@ -323,16 +324,59 @@ impl Worker {
         Worker { child, stdin, rx, last_err, pending, timeout, hangs: 0 }
     }
 
-    /// run one case; restarts the worker after a hang or an abort
+    /// CPU time (user + system, all threads) the worker process has used so far
+    fn cpu(&self) -> Duration {
+        unsafe extern "C" {
+            fn sysconf(name: i32) -> i64;
+        }
+        let tck = unsafe { sysconf(2) }.max(1) as u64; // _SC_CLK_TCK
+        let st = std::fs::read_to_string(format!("/proc/{}/stat", self.child.id())).unwrap_or_default();
+        // fields after the command name (which may contain spaces): state is field 3, utime 14, stime 15
+        let rest = st.rsplit_once(')').map(|x| x.1).unwrap_or("");
+        let f: Vec<&str> = rest.split_whitespace().collect();
+        let ticks = f.get(11).and_then(|x| x.parse::<u64>().ok()).unwrap_or(0) + f.get(12).and_then(|x| x.parse::<u64>().ok()).unwrap_or(0);
+        Duration::from_millis(ticks * 1000 / tck)
+    }
+
+    fn respawn(&mut self) {
+        let (t, h) = (self.timeout, self.hangs);
+        *self = Worker::spawn(t);
+        self.hangs = h;
+    }
+
+    /// run one case; restarts the worker after a hang or an abort.
+    /// The watchdog counts the **CPU time of the worker process**, not wall-clock time, so the
+    /// verdict does not depend on how loaded the machine is; a (generous) wall-clock cap only
+    /// catches a worker that is blocked without consuming CPU.
     pub fn run(&mut self, line: &str) -> Outcome {
+        let limit = self.timeout;
+        self.run_limited(line, limit)
+    }
+
+    pub fn run_limited(&mut self, line: &str, cpu_limit: Duration) -> Outcome {
         self.last_err.lock().unwrap().clear();
         self.pending.store(false, Ordering::SeqCst);
+        let cpu0 = self.cpu();
+        let t0 = std::time::Instant::now();
+        let wall_cap = (cpu_limit * 30).max(Duration::from_secs(300));
         let sent = writeln!(self.stdin, "{}", line).and_then(|_| self.stdin.flush());
-        let mut res = if sent.is_err() { Err(RecvTimeoutError::Disconnected) } else { self.rx.recv_timeout(self.timeout) };
-        if matches!(res, Err(RecvTimeoutError::Timeout)) && self.pending.load(Ordering::SeqCst) {
-            // the worker is inside the allocation hook (symbolising a backtrace): not a hang of the code under test
-            res = self.rx.recv_timeout(Duration::from_secs(180));
-        }
+        let res = if sent.is_err() {
+            Err(RecvTimeoutError::Disconnected)
+        } else {
+            loop {
+                match self.rx.recv_timeout(Duration::from_millis(200)) {
+                    Err(RecvTimeoutError::Timeout) => {
+                        let used = self.cpu().saturating_sub(cpu0);
+                        // symbolising a backtrace inside the allocation hook is harness work, not the code under test
+                        let allowance = if self.pending.load(Ordering::SeqCst) { cpu_limit + Duration::from_secs(180) } else { cpu_limit };
+                        if used >= allowance || t0.elapsed() >= wall_cap {
+                            break Err(RecvTimeoutError::Timeout);
+                        }
+                    }
+                    other => break other,
+                }
+            }
+        };
         match res {
             Ok(l) => {
                 let f: Vec<&str> = l.split('\t').collect();
@@ -347,20 +391,14 @@ impl Worker {
             Err(RecvTimeoutError::Timeout) => {
                 let _ = self.child.kill();
                 let _ = self.child.wait();
-                let t = self.timeout;
-                let h = self.hangs;
-                *self = Worker::spawn(t);
-                self.hangs = h;
-                Outcome { ms: t.as_millis(), answer: "HANG".into(), max_req: 0, alloc_site: String::new(), panic_site: String::new() }
+                self.respawn();
+                Outcome { ms: cpu_limit.as_millis(), answer: "HANG".into(), max_req: 0, alloc_site: String::new(), panic_site: String::new() }
             }
             Err(RecvTimeoutError::Disconnected) => {
                 let _ = self.child.wait();
                 std::thread::sleep(Duration::from_millis(30));
                 let e = self.last_err.lock().unwrap().clone();
-                let t = self.timeout;
-                let h = self.hangs;
-                *self = Worker::spawn(t);
-                self.hangs = h;
+                self.respawn();
                 // "C08-ALLOC-REFUSED <size> <site>"
                 let f: Vec<&str> = e.split(' ').collect();
                 if f.first() == Some(&"C08-ALLOC-REFUSED") {
@@ -377,6 +415,12 @@ impl Worker {
             }
         }
     }
+}
+
+/// hang sites that are already confirmed and listed in known_findings.txt: they are not
+/// re-run with the long limit (every other HANG is)
+fn known_hang_site(line: &str, tags: &str) -> bool {
+    line.split(' ').nth(1) == Some("ocf") || tags.contains("witness:thrift-skip-bool-list")
 }
 
 impl Drop for Worker {
@@ -396,7 +440,17 @@ pub fn log2_bucket(n: usize) -> u32 {
 /// by the driver; the oracle failure is reported in any case (a panic is a C08 violation).
 pub fn run_and_record(w: &mut Worker, sink: &mut vcommon::Sink, line: String, tags: &str, input_len: usize) {
     let t0 = std::time::Instant::now();
-    let o = w.run(&line);
+    let mut o = w.run(&line);
+    if o.answer == "HANG" && !known_hang_site(&line, tags) {
+        // not a known hang site: run the case again, alone, with ten times the limit (at least 120 s
+        // of worker CPU time); it is a hang only if it still does not finish
+        let long = (w.timeout * 10).max(Duration::from_secs(120));
+        let o2 = w.run_limited(&line, long);
+        if std::env::var("VERIF_LOUD").is_ok() {
+            eprintln!("hang-confirmation {} -> {} after {:?}", line, o2.answer, t0.elapsed());
+        }
+        o = o2;
+    }
     if std::env::var("VERIF_LOUD").is_ok() && t0.elapsed().as_millis() > 300 {
         eprintln!("slow-case {:?} {} -> {} ms={} max_req={} site={}", t0.elapsed(), line, o.answer, o.ms, o.max_req, o.alloc_site);
     }
@@ -410,12 +464,13 @@ pub fn run_and_record(w: &mut Worker, sink: &mut vcommon::Sink, line: String, ta
         "HANG" => {
             let op = line.split(' ').nth(1).unwrap_or("?");
             tags.push_str(&format!(" kf:hang-{}", op));
-            // an infinite loop costs a full timeout: after two of them stop being patient
+            // a hang costs a full limit of CPU time: after the first one halve the patience
+            // (a case that exceeds the shorter limit at an unknown site is re-run with the long one)
             w.hangs += 1;
-            if w.hangs >= 2 && w.timeout > Duration::from_secs(4) {
-                w.timeout = Duration::from_secs(4);
+            if w.hangs >= 1 && w.timeout > Duration::from_secs(3) {
+                w.timeout = Duration::from_secs(3).max(w.timeout / 2);
             }
-            fails.push("HANG (no answer within the wall-clock limit; worker killed)".to_string());
+            fails.push("HANG (worker CPU-time limit exceeded; worker killed)".to_string());
         }
         "ABORT" => {
             if o.alloc_site.contains("thrift") || o.alloc_site.contains("page_index") {
